@@ -6,6 +6,7 @@ they received, middlewares and error handlers compiled from their kinds.
 from __future__ import annotations
 
 import asyncio
+import functools
 import json
 
 from . import core
@@ -18,17 +19,46 @@ from pjrpc.common import UNSET
 from pjrpc.server import validators
 
 
+CURRENT = {'bodies': {}}       # method key -> body description of the case in progress; 'ctx' -> context of the call in progress
+
+
 class Ctx:
-    """the per-request server-side context object"""
+    """the per-request server-side context object.  All instances compare *equal* (like per-request dataclass / dict
+    contexts with the same content): what a method receives must be the object of *this* request, by identity."""
 
     def __repr__(self):
-        return '<CTX>'
+        return '<ctx-object>'
+
+    def __eq__(self, other):
+        return isinstance(other, Ctx)
+
+    def __hash__(self):
+        return 7
 
 
 CTX = Ctx()
+CTX2 = Ctx()                   # equal to CTX, another object
+_FLIP = [False]
+
+
+def next_ctx():
+    """the context object for the next dispatch call: consecutive calls get equal but distinct objects; the recording
+    bodies mark as `<CTX>` the object of the call in progress and as `<stale-ctx>` any other context object"""
+    _FLIP[0] = not _FLIP[0]
+    CURRENT['ctx'] = CTX2 if _FLIP[0] else CTX
+    return CURRENT['ctx']
+
+
+def ctx_mark(v, absent='<none>'):
+    if v is CURRENT.get('ctx'):
+        return '<CTX>'
+    return '<stale-ctx>' if isinstance(v, Ctx) else absent
+
+
+def ctx_label(v):
+    return 'CTX' if v is CURRENT.get('ctx') else repr(v)
 DEFAULT = '<default>'
 LOG = []                       # events of the dispatch in progress
-CURRENT = {'bodies': {}}       # method key -> body description of the case in progress
 
 
 class CustomError(Exception):
@@ -42,8 +72,8 @@ EXC_TYPES['ValidationError'] = validators.ValidationError
 
 def norm(v):
     """normalise what a body received: the context object becomes its marker, tuples become lists"""
-    if v is CTX:
-        return '<CTX>'
+    if isinstance(v, Ctx):
+        return ctx_mark(v)
     if isinstance(v, (list, tuple)):
         return [norm(x) for x in v]
     if isinstance(v, dict):
@@ -107,17 +137,26 @@ def render_params(sig):
 _FUNCS = {}
 
 
-def make_callable(key, sig, is_async, view, fresh=False):
+def shared_decorator(f):
+    """an ordinary `functools.wraps` decorator: every decorated method shares this one wrapper code object, and a
+    decorated coroutine function is a *plain* function returning a coroutine"""
+    @functools.wraps(f)
+    def wrapper(*args, **kwargs):
+        return f(*args, **kwargs)
+    return wrapper
+
+
+def make_callable(key, sig, is_async, view, fresh=False, deco=False):
     """function / coroutine function / view class whose body records its arguments and then does what the
     current case says.  Cached: the validator's signature cache is keyed by the function object
     (`fresh=True` builds new objects, for measuring cache growth)."""
-    ck = (key, json.dumps(sig), is_async, view)
+    ck = (key, json.dumps(sig), is_async, view, deco)
     if ck in _FUNCS and not fresh:
         return _FUNCS[ck]
     params = render_params(sig)
     recv = '{' + ', '.join(f'{p["n"]!r}: {p["n"]}' for p in sig) + '}'
     a = 'async ' if is_async else ''
-    ns = {'_perform': _perform, '_CTX': CTX}
+    ns = {'_perform': _perform, '_ctx_mark': ctx_mark}
     if view:
         src = (
             'import pjrpc.server\n'
@@ -127,15 +166,17 @@ def make_callable(key, sig, is_async, view, fresh=False):
             '        self.context = context\n'
             f'    {a}def vm(self{", " if params else ""}{params}):\n'
             f'        recv = {recv}\n'
-            "        recv['<self.context>'] = '<CTX>' if self.context is _CTX else '<none>'\n"
+            "        recv['<self.context>'] = _ctx_mark(self.context)\n"
             f'        return _perform({key!r}, recv)\n'
         )
         exec(src, ns)
         obj = ns['V']
+        if deco:
+            obj.vm = shared_decorator(obj.vm)
     else:
         src = f'{a}def f({params}):\n    return _perform({key!r}, {recv})\n'
         exec(src, ns)
-        obj = ns['f']
+        obj = shared_decorator(ns['f']) if deco else ns['f']
     if not fresh:
         _FUNCS[ck] = obj
     return obj
@@ -172,7 +213,7 @@ def make_middleware(i, spec, is_async):
     k = spec['k']
 
     def enter(request, context):
-        LOG.append({'e': 'enter', 'i': str(i), 'm': request.method, 'ctx': 'CTX' if context is CTX else repr(context)})
+        LOG.append({'e': 'enter', 'i': str(i), 'm': request.method, 'ctx': ctx_label(context)})
 
     def leave():
         LOG.append({'e': 'leave', 'i': str(i)})
@@ -271,12 +312,12 @@ def build_dispatcher(cfg, is_async, fresh=False, coroutine_methods=None):
         key = m.get('key') or m['name']
         excluded = m.get('excluded') or []
         if m.get('view'):
-            cls = RaisingView if m.get('initRaises') else make_callable(key, m['sig'], coroutine_methods, True)
+            cls = RaisingView if m.get('initRaises') else make_callable(key, m['sig'], coroutine_methods, True, deco=bool(m.get('deco')))
             if m.get('post') is not None or excluded:
                 _VerdictValidator(key, excluded).validate(cls.vm)
             d.registry.add_methods(pjrpc.server.dispatcher.ViewMethod(cls, 'vm', key, m.get('ctx'), bool(m.get('positional'))))
         else:
-            f = make_callable(key, m['sig'], coroutine_methods, False)
+            f = make_callable(key, m['sig'], coroutine_methods, False, deco=bool(m.get('deco')))
             if m.get('post') is not None or excluded:
                 _VerdictValidator(key, excluded).validate(f)
             d.registry.add_methods(pjrpc.server.Method(f, key, m.get('ctx'), bool(m.get('positional'))))
@@ -337,9 +378,9 @@ def dispatch(cfg, text, is_async, fresh=False, coroutine_methods=None):
     del LOG[:]
     try:
         if is_async:
-            r = loop().run_until_complete(d.dispatch(text, context=CTX))
+            r = loop().run_until_complete(d.dispatch(text, context=next_ctx()))
         else:
-            r = d.dispatch(text, context=CTX)
+            r = d.dispatch(text, context=next_ctx())
     except Exception as e:  # noqa: an exception out of dispatch is an observation
         r = e
     return observe(r, list(LOG))
